@@ -86,7 +86,9 @@ type Task struct {
 	PanicStack string
 	Leaked     []string // locks still held when the task function returned
 	goid       int64
-	Prio       int  // free for strategies (PCT)
+	Prio       int    // free for strategies (PCT)
+	Key        uint64 // schedule-independent identity (operation id + creation ordinal): what tapes record
+	children   uint64
 	Held       bool // not runnable until the harness releases it (fired-but-not-run timer callbacks)
 	BlockNote  string
 }
@@ -147,6 +149,10 @@ type Kernel struct {
 	Log         []string
 	VerifyGoid  bool
 	Foreign     int
+
+	// KeyHint, when non-zero, is the Key of the next task the harness spawns.
+	KeyHint  uint64
+	rootKeys uint64
 
 	// OnSpawn is called (in the spawning task) for every task created through Go.
 	OnSpawn func(parent, child *Task)
@@ -238,6 +244,16 @@ func (k *Kernel) Spawn(name string, group int, tag any, fn func()) *Task {
 	t.state = Parked
 	k.tasks = Push(k.tasks, t)
 	parent := k.running
+	switch {
+	case parent != nil:
+		parent.children++
+		t.Key = MixKey(parent.Key, parent.children)
+	case k.KeyHint != 0:
+		t.Key, k.KeyHint = k.KeyHint, 0
+	default:
+		k.rootKeys++
+		t.Key = MixKey(0x5eed, k.rootKeys)
+	}
 	if k.OnSpawn != nil && parent != nil {
 		k.OnSpawn(parent, t)
 	}
@@ -664,3 +680,17 @@ func synctestWait() { synctest.Wait() }
 //
 //go:norace
 func IsAbort(r any) bool { _, ok := r.(abortSentinel); return ok }
+
+// MixKey derives a task key from a parent key and an ordinal.
+//
+//go:norace
+func MixKey(a, b uint64) uint64 {
+	x := a*0x9e3779b97f4a7c15 ^ (b + 0xbf58476d1ce4e5b9)
+	x ^= x >> 31
+	x *= 0x94d049bb133111eb
+	x ^= x >> 29
+	if x == 0 {
+		x = 1
+	}
+	return x
+}
